@@ -88,8 +88,9 @@ def add_filter(component, patterns, max_match=MAX_MATCH):
         return dict((k, none_max(da.get(k), db.get(k))) for k in set(da.keys()).union(db.keys()))
 
     def inner(comp, patterns):
-        if comp in _CACHE:
-            del _CACHE[comp]
+        # the cached look-ups of the datasources `comp` depends on include its
+        # filters as well, so all of them are stale now
+        _CACHE.clear()
 
         if not isinstance(patterns, (six.string_types, list, set)):
             raise TypeError("Filter patterns must be of type string, list, or set.")
@@ -219,6 +220,7 @@ def loads(string):
     d = _loads(string)
     for k, v in d.items():
         FILTERS[dr.get_component(k) or k] = v
+    _CACHE.clear()
 
 
 def load(stream=None):
